@@ -158,16 +158,17 @@ def check_case(case) -> Result:
                 return 2 * q / (c["mu0"] * (1 + c["mu_slope"] * x**2) * (1 + c["za"] * x + c["zb"] * x**2))
 
             ref, _ = quad(fx, p[0], p[-1], limit=200)
-            # bound with the true second derivative sampled densely (a coarse table hides curvature)
-            qq = np.linspace(p[0], p[-1], 4001)
-            f2 = np.abs(np.gradient(np.gradient(fx(qq), qq), qq))
-            hmax = np.diff(p)
+            # composite trapezoid: |error| <= sum_k h_k^3 max_{interval k} |f''| / 12, f'' of the analytic integrand by
+            # a central second difference (the integrand is smooth and defined beyond the table's ends) on 64 samples
+            # per interval
             bound = 0.0
             for k in range(n - 1):
-                sel = (qq >= p[k]) & (qq <= p[k + 1])
-                cmax = float(np.max(f2[sel])) if np.any(sel) else float(np.max(f2))
-                bound += hmax[k] ** 3 * cmax / 12.0
-            res.check("C08/transform-vs-analytic-integral", abs(m[-1] - ref), 2.0 * bound + 1e-9 * abs(ref), f"fluids.pseudopressure end value {m[-1]!r} vs integral {ref!r} ({n} rows, {case['grid']});")
+                h = float(p[k + 1] - p[k])
+                qq = np.linspace(p[k], p[k + 1], 64)
+                d_ = 1e-3 * h
+                f2 = np.abs(fx(qq + d_) - 2 * fx(qq) + fx(qq - d_)) / d_**2
+                bound += h**3 * float(np.max(f2)) * 1.05 / 12.0
+            res.check("C08/transform-vs-analytic-integral", abs(m[-1] - ref), 1.05 * bound + (1e-5 if pdt == "float32" else 1e-9) * abs(ref), f"fluids.pseudopressure end value {m[-1]!r} vs integral {ref!r} ({n} rows, {case['grid']});")
         res.nontrivial = n >= 3
         res.labels["grid"] = case["grid"]
         res.labels["family"] = case["family"]
